@@ -13,6 +13,11 @@ package mangos
 //@ struct Message
 //@   atomic: refcnt
 //@   immutable: bbuf hbuf bsize
+//@   invariant bsize != 0 ==> cap(bbuf) == bsize && len(bbuf) == 0 && len(hbuf) == 0 && arrof(bbuf) != arrof(hbuf)
+//@
+//@ struct msgCacheInfo
+//@   immutable: maxbody pool
+//@   pool_elem pool: is_type(elem, "*Message") && cast("*Message", elem) != nil && cast("*Message", elem).bsize == maxbody
 //@
 //@ interface ProtocolPipe.GetPrivate
 //@   pure
@@ -30,16 +35,19 @@ package mangos
 //@   ensures !isnil(result) ==> arg0.Body == old(arg0.Body)
 //@
 //@ func NewMessage
-//@   trusted
 //@   own_primitive
 //@   fresh_only
+//@   requires sz >= 0
+//@   loop 1 invariant m == nil
 //@   ensures result != nil && len(result.Body) == 0 && len(result.Header) == 0 && cap(result.Body) >= sz
-//@   ensures arrof(result.Header) != arrof(result.Body) && fresh_arr(result.Header) && fresh_arr(result.Body)
+//@   ensures arrof(result.Header) != arrof(result.Body)
+//@   trusts fresh_arr(result.Header) && fresh_arr(result.Body)
 //@
 //@ func newMsg
 //@   own_primitive
 //@   requires sz >= 0
 //@   ensures result != nil && len(result.bbuf) == 0 && cap(result.bbuf) == sz && result.bsize == sz && len(result.hbuf) == 0
+//@   ensures arrof(result.bbuf) != arrof(result.hbuf)
 //@
 //@ func (*Message).Free
 //@   own_primitive
@@ -84,3 +92,42 @@ package mangos
 //@
 //@ interface ProtocolContext.RecvMsg
 //@   ensures isnil(result1) ==> result0 != nil
+
+// ---- the message pools ----
+//@ func init
+//@   ensures len(messageCache) == 8
+//@   ensures messageCache[0].maxbody == 64
+//@   ensures messageCache[0].pool != nil
+//@   ensures fn_is(messageCache[0].pool.New, "mangos.init$1")
+//@   ensures messageCache[1].maxbody == 128 && fn_is(messageCache[1].pool.New, "mangos.init$2")
+//@   ensures messageCache[2].maxbody == 256 && fn_is(messageCache[2].pool.New, "mangos.init$3")
+//@   ensures messageCache[3].maxbody == 512 && fn_is(messageCache[3].pool.New, "mangos.init$4")
+//@   ensures messageCache[4].maxbody == 1024 && fn_is(messageCache[4].pool.New, "mangos.init$5")
+//@   ensures messageCache[5].maxbody == 4096 && fn_is(messageCache[5].pool.New, "mangos.init$6")
+//@   ensures messageCache[6].maxbody == 8192 && fn_is(messageCache[6].pool.New, "mangos.init$7")
+//@   ensures messageCache[7].maxbody == 65536 && fn_is(messageCache[7].pool.New, "mangos.init$8")
+//@
+//@ func init$1
+//@   ensures cast("*Message", result).bsize == 64 && cap(cast("*Message", result).bbuf) == 64 && len(cast("*Message", result).bbuf) == 0 && len(cast("*Message", result).hbuf) == 0
+//@
+//@ func init$2
+//@   ensures cast("*Message", result).bsize == 128 && cap(cast("*Message", result).bbuf) == 128 && len(cast("*Message", result).bbuf) == 0 && len(cast("*Message", result).hbuf) == 0
+//@
+//@ func init$3
+//@   ensures cast("*Message", result).bsize == 256 && cap(cast("*Message", result).bbuf) == 256 && len(cast("*Message", result).bbuf) == 0 && len(cast("*Message", result).hbuf) == 0
+//@
+//@ func init$4
+//@   ensures cast("*Message", result).bsize == 512 && cap(cast("*Message", result).bbuf) == 512 && len(cast("*Message", result).bbuf) == 0 && len(cast("*Message", result).hbuf) == 0
+//@
+//@ func init$5
+//@   ensures cast("*Message", result).bsize == 1024 && cap(cast("*Message", result).bbuf) == 1024 && len(cast("*Message", result).bbuf) == 0 && len(cast("*Message", result).hbuf) == 0
+//@
+//@ func init$6
+//@   ensures cast("*Message", result).bsize == 4096 && cap(cast("*Message", result).bbuf) == 4096 && len(cast("*Message", result).bbuf) == 0 && len(cast("*Message", result).hbuf) == 0
+//@
+//@ func init$7
+//@   ensures cast("*Message", result).bsize == 8192 && cap(cast("*Message", result).bbuf) == 8192 && len(cast("*Message", result).bbuf) == 0 && len(cast("*Message", result).hbuf) == 0
+//@
+//@ func init$8
+//@   ensures cast("*Message", result).bsize == 65536 && cap(cast("*Message", result).bbuf) == 65536 && len(cast("*Message", result).bbuf) == 0 && len(cast("*Message", result).hbuf) == 0
+//@
